@@ -210,6 +210,7 @@ def solve_one(ob, budget, confirm=None):
     order = ORDER.get(ob.get("theory", "int"), ORDER["int"])
     quantified = ("(forall " in ob["smt2"]) or ("(exists " in ob["smt2"])
     need_for = _need_for_factory(ob["smt2"])
+    seqy = "(Seq " in ob["smt2"] or "seq." in ob["smt2"] or "String" in ob["smt2"] or "str." in ob["smt2"]
     need = 2 if quantified else 1
     want = max(need, confirm or 1)
     notes = []
@@ -228,6 +229,10 @@ def solve_one(ob, budget, confirm=None):
         if t >= budget:
             done_full.add((b, "full"))
         if st == "sat":
+            if unsat_by and seqy and all(x == "z3-5.1" for x in unsat_by):
+                # a lone z3 5.1 `unsat` on a sequence VC is only a hint (see need_for): the model wins
+                notes.append("z3-5.1 answered unsat, %s found a model: z3-5.1's answer disregarded" % b)
+                unsat_by = []
             if unsat_by:
                 ob.update(status="conflict", backend="%s:unsat vs %s:sat" % (unsat_by[0], b),
                           seconds=round(total, 3), model=model, notes=notes)
